@@ -55,14 +55,14 @@ theorem paren_critWire (c : Crit) : Paren (critWire c) := by
   | mk f nots ors => unfold critWire; exact paren_wList _
 
 /-- the effects of the keys of a criteria value compose to its canonical form -/
-def Composes (c : Crit) : Prop := (critItems c).foldl (fun acc a => a.2 acc) Crit.empty = canonCrit c
+def Composes (c : Crit) : Prop := (critItems c).foldl (fun acc a => a.2 acc) Crit.empty = delivCrit c
 
 mutual
   /-- a criteria tree written by the client is read back in canonical form, given a recursion budget of
       twice its depth, and room for its nesting below the decoder's list-depth limit and the NOT/OR limit -/
   theorem readsAs_crit : ∀ (c : Crit) (F ld kd : Nat), CritOK c → (∀ c', CritOK c' → Composes c') → 2 * depth c ≤ F →
       ld + depth c < maxListDepth → kd + depth c ≤ maxSearchKeyDepth →
-      ReadsAs F ld kd (critWire c) (canonCrit c)
+      ReadsAs F ld kd (critWire c) (delivCrit c)
     | .mk f nots ors, F, ld, kd, hok0, hcomp, hF, hld, hkd => by
       have hok := hok0
       unfold CritOK at hok
@@ -92,7 +92,7 @@ mutual
       intro a ha
       unfold notItems at ha
       rcases List.mem_cons.mp ha with rfl | ha
-      · exact good_not F ld kd (critWire c) (canonCrit c)
+      · exact good_not F ld kd (critWire c) (delivCrit c)
           (readsAs_crit c F ld (kd + 1) hok.1 hcomp (by omega) (by omega) (by omega)) (paren_critWire c) (by omega)
       · exact good_nots t F ld kd hok.2 hcomp (by omega) (by omega) (by omega) a ha
   theorem good_ors : ∀ (ors : OrList) (F ld kd : Nat), OrsOK ors → (∀ c', CritOK c' → Composes c') → 2 * depthOrs ors ≤ F →
@@ -105,7 +105,7 @@ mutual
       intro x hx
       unfold orItems at hx
       rcases List.mem_cons.mp hx with rfl | hx
-      · exact good_or F ld kd (critWire a) (critWire b) (canonCrit a) (canonCrit b)
+      · exact good_or F ld kd (critWire a) (critWire b) (delivCrit a) (delivCrit b)
           (readsAs_crit a F ld (kd + 1) hok.1 hcomp (by omega) (by omega) (by omega))
           (readsAs_crit b F ld (kd + 1) hok.2.1 hcomp (by omega) (by omega) (by omega))
           (paren_critWire a) (paren_critWire b) (by omega)
